@@ -1186,25 +1186,64 @@ impl<'a> Runner<'a> {
         } else {
             usize::MAX
         };
-        let ids: Vec<u32> = with(|w| behs.iter().take(room).map(|&b| w.new_child(CKind::Fut, b)).collect());
+        // A batch that does not fit makes extend() panic part-way. Half of the time the batch is cut
+        // to what fits; otherwise the whole batch is given and the panic is expected: whatever
+        // prefix was accepted stays, the queue must go on working (C15).
+        let overflow = behs.len() > room && (behs.len() + room) % 2 == 0;
+        let take = if overflow { behs.len() } else { room.min(behs.len()) };
+        let ids: Vec<u32> = with(|w| behs.iter().take(take).map(|&b| w.new_child(CKind::Fut, b)).collect());
         if ids.is_empty() {
             return;
         }
+        let len_before = self.safe_obs().and_then(|o| o.len).unwrap_or(0);
+        let allocs_before = F.with(|f| f.allocs_in_crate.get());
         let mut subj = self.subj.take().unwrap();
         let ids2 = ids.clone();
         let r = catch_unwind(AssertUnwindSafe(|| flags::in_crate(|| subj.extend(ids2))));
         match r {
             Ok(ok) => {
                 self.subj = Some(subj);
+                let mut accepted = ids.len();
                 if !ok {
+                    F.with(|f| f.allocs_in_crate.set(allocs_before));
+                    if !overflow {
+                        self.violate(
+                            "C15",
+                            "push-panicked-with-room",
+                            format!("{}: extend panicked although there was room", self.kind().name()),
+                        );
+                        return;
+                    }
+                    with(|w| w.faults[FA_REFUSED] += 1);
+                    let oi = with(|w| w.op_index);
+                    self.res.refused_ops.push(oi.saturating_sub(1));
+                    // how much of the batch went in before the panic
+                    let len_after = self.safe_obs().and_then(|o| o.len).unwrap_or(len_before);
+                    accepted = len_after.saturating_sub(len_before).min(ids.len());
+                    // the iterator was abandoned at the panic: the rest of the batch was never
+                    // turned into futures, there is nothing to drop for them
+                    with(|w| {
+                        for &id in ids.iter().skip(accepted) {
+                            if w.children[id as usize].drops == 0 {
+                                w.children[id as usize].nodrop = true;
+                            }
+                        }
+                    });
+                    if accepted > room {
+                        self.violate(
+                            "C15",
+                            "accepted-beyond-capacity",
+                            format!("{}: extend accepted {} futures with room for {}", self.kind().name(), accepted, room),
+                        );
+                    }
+                } else if overflow {
                     self.violate(
                         "C15",
-                        "push-panicked-with-room",
-                        format!("{}: extend panicked although there was room", self.kind().name()),
+                        "accepted-beyond-capacity",
+                        format!("{}: extend of {} futures succeeded with room for {}", self.kind().name(), ids.len(), room),
                     );
-                    return;
                 }
-                for id in ids {
+                for &id in ids.iter().take(accepted) {
                     with(|w| {
                         w.accept(id);
                         w.log(0x40, id as u64);
@@ -2200,8 +2239,9 @@ fn run_inner2(cfg: &Config, trace: &[Op]) -> RunResult {
     });
     let class = cfg.subject.class();
     with(|w| {
-        w.nd_children = cfg.shape & 1 != 0;
-        w.raw_outputs = cfg.shape & 2 != 0 && cfg.shape & 4 == 0 && cfg.subject != SubjectKind::FEC;
+        let big = cfg.shape & 8 != 0 && matches!(class, Class::Collection) || (cfg.shape & 8 != 0 && cfg.subject == SubjectKind::JA);
+        w.nd_children = cfg.shape & 1 != 0 && !big;
+        w.raw_outputs = cfg.shape & 2 != 0 && cfg.shape & 4 == 0 && cfg.subject != SubjectKind::FEC && !big;
         w.inexact_iter = cfg.inexact_iter;
         w.ordered_adapter = matches!(cfg.subject, SubjectKind::BO | SubjectKind::TBO);
         w.src_hints = cfg.src_hints;
